@@ -1,7 +1,7 @@
 #!/usr/bin/env python3
 """Independent BLAKE2b tree-mode oracle for datamon's cafs keys (C02, also used by C04).
 
-Layout "datamon has always used" (pinned by testdata/roots): unlimited fan-out tree of depth 2,
+Layout "datamon has always used" (anchored on the published single-leaf vectors of docs/blake2.md and on keys recorded from the pinned commit): unlimited fan-out tree of depth 2,
 inner hash size 64, leaf length = leaf size; the i-th (0-based) *full* leaf is hashed with
 node_offset = i+1 and no last-node flag; a trailing partial leaf is hashed with node_offset = i
 (its 0-based index) and the last-node flag; the root hashes the concatenated leaf digests with
@@ -42,20 +42,65 @@ def tree(data, leaf):
     return root, leaves
 
 
+# Published vectors (s3git / docs/blake2.md in the repository, produced by a different implementation years before
+# this code): leaf size 5 MiB.  They are constants here so that the anchor needs nothing generated at test time.
+VECTORS = [
+    (b"hello s3git\n", 5 * 1024 * 1024,
+     "18e622875a89cede0d7019b2c8afecf8928c21eac18ec51e38a8e6b829b82c3ef306dec34227929fa77b1c7c329b3d4e50ed9e72dc4dc885be0932d3f28d7053",
+     ["46ddd7b91748c4d253e328a9644d78b3e3a298ebbbab462891502f05e956ef7ec03c8e0978e5160a858cc50ca6b37176248b602d50d0c609abe75b462b6dddcc"]),
+    (bytes.fromhex("46ddd7b91748c4d253e328a9644d78b3e3a298ebbbab462891502f05e956ef7ec03c8e0978e5160a858cc50ca6b37176248b602d50d0c609abe75b462b6dddcc"),
+     5 * 1024 * 1024,
+     "4cba3e9d94f5c2a643ee365487249342e16d8e58cfd53c7b2022b7472b46cd30b08af32db1998a9f93a029bd086e4b1b744af2b46c54fab106beadb3b4cbed78",
+     None),
+]
+
+
+# Keys recorded once from the repository's pinned commit (e99a0fb, before any repair), content(7, "gold", n): they pin
+# datamon's own node-offset convention for several leaves (full leaf i -> node_offset i+1, trailing partial leaf i ->
+# node_offset i with the last-node flag), which differs from s3git's (the 8 MiB example of docs/blake2.md is NOT
+# reproduced by datamon, by design of the format).
+PINNED = [
+    (0, 1024, "2d18ac2c40a0b284ec85146d53ff86bee51d54d3f8611069b278f5ec4bfc335351f058e185f6e08019d986efa7628d73907300de6ccb97442904d54336fb7fe5"),
+    (1, 1024, "0fd96dc98cab276a1df146a8aa5c2c27d2a8d4d2182237e20c843309455156ec29960b747b18b9fc304ead4ffc93d46557d6a85385efff5c9c666c655e1bd6ea"),
+    (1023, 1024, "8288130a4e2de801fb5bd43b3e32f94d953a066ca3277c0ff8c80a950ce533654be1b05dee070876d849a472c4ce75d372ef55252a83a8cefe664455da05589e"),
+    (1024, 1024, "cf75e19ecc74c57b08aba2a6e77937040eee73cc1ca81a3833ea2ae5ac1de12813c41a24a2268ea635300018ff006c9a59dcd0f1f5d5bcba66e7a7fb781ee759"),
+    (196608, 65536, "08c3a82554ea21722eb541266c245f25bdef15e403fbc39df95a118e4c144a7850bfd310ea182967d8ce86684821b656a947c7f3e07ffe76a69ca14412975a3d"),
+    (196615, 65536, "40867db0c62e2981625497dc69b254c4303eb7503d23517402025fd817a1d1f0a27a30474f50f7e68f09fff81d94eda37318232febcb8925c6e977f0e2e29698"),
+    (3145828, 1572864, "a2a94d3d1dc0502e6847438011a1ae84c40ecc1199f0eaf4ef03cf3b8c37498aaee73ca625e3e451d1d2b7f3734f4e94b995f383abb0aa732accbbb7e99e0835"),
+    (65536, 65536, "4ad659e12f50c2370857233e52bbdc92f47510b143a5da0d5405cdb3bdeceacbf23edbc3e4de050dfb8187043776a3aef1275ab508f61875300e5e9e71cc2e09"),
+    (65537, 65536, "1f1499f08f2cda36eaf839e60648bbe11282e6e94ac6d9c6f8a4cd70a5b49337070a454f66e408890cb89ea38d74527155f2169a4c102d59e8763589e85e8923"),
+    (131072, 65536, "98dc46967bb18ba13c4333116dd00b298e34ee814fb12fe91aac73a8e0b00cb7283ebef40bd3ecab4b9c518f8304c7bdee03575d0e4959400f2f766989903d23"),
+    (5242883, 2097152, "f3644f9074d88ff50ed9e0991dd6d9e53492f27fbf96358a2ff16c445e4873e5037f06f01ffac2b30babeddb912fba1784805fad67252d6525f7b8223a4545cb"),
+    (8388608, 2097152, "fe096be9442840572ed7a093a0c84d890d1e172d193f7c26da8fba80aa1f8fe047285af8d79e0051d45eb0c84c6dc3b5ddd1c678742e16b305181a8a1d7c1484"),
+]
+
+
 def anchor(repo):
-    """the oracle must reproduce the checked-in root keys, otherwise nothing it says is believed"""
+    """the oracle must reproduce the published root and leaf keys, otherwise nothing it says is believed;
+    when the repository's test run has left testdata/roots behind, those are reproduced as well (extra, not required)"""
+    k = 0
+    for data, leaf, want_root, want_leaves in VECTORS:
+        root, leaves = tree(data, leaf)
+        if root.hex() != want_root:
+            return -1, "oracle does not reproduce the published root key %s…" % want_root[:16]
+        if want_leaves is not None and [l.hex() for l in leaves] != want_leaves:
+            return -1, "oracle does not reproduce the published leaf keys of %s…" % want_root[:16]
+        k += 1
+    for n, leaf, want in PINNED:
+        root, _ = tree(content(7, "gold", n), leaf)
+        if root.hex() != want:
+            return -1, "oracle does not reproduce the key the pinned commit gave for len=%d leaf=%d" % (n, leaf)
+        k += 1
     orig = os.path.join(repo, "testdata", "original")
     roots = os.path.join(repo, "testdata", "roots")
-    k = 0
-    for name in sorted(os.listdir(orig)):
-        rp = os.path.join(roots, name)
-        if not os.path.exists(rp):
-            continue
-        want = open(rp).read().strip()
-        got, _ = tree(open(os.path.join(orig, name), "rb").read(), 1572864)
-        if got.hex() != want:
-            return -1, "oracle does not reproduce testdata/roots/%s" % name
-        k += 1
+    if os.path.isdir(orig) and os.path.isdir(roots):
+        for name in sorted(os.listdir(orig)):
+            rp = os.path.join(roots, name)
+            if not os.path.exists(rp):
+                continue
+            got, _ = tree(open(os.path.join(orig, name), "rb").read(), 1572864)
+            if got.hex() != open(rp).read().strip():
+                return -1, "oracle does not reproduce testdata/roots/%s" % name
     return k, ""
 
 
@@ -63,8 +108,8 @@ def main():
     reqs = [json.loads(l) for l in open(sys.argv[1]) if l.strip()]
     repo = os.environ.get("VERIF_REPO", "/repo")
     k, why = anchor(repo)
-    if k < 5:
-        print(json.dumps({"inconclusive": why or "fewer than 5 anchor files found under testdata"}))
+    if k < len(VECTORS) + len(PINNED):
+        print(json.dumps({"inconclusive": why or "published vectors not reproduced"}))
         return
     checked = 0
     for r in reqs:
